@@ -280,11 +280,11 @@ def check_sy(psets, out, label, knots_for, seed=0):
                 out.violation('oracle', 'the caller\'s levels were modified: the float64 array (%s) handed to the '
                               'specific-yield function differs from its pristine copy afterwards; parameters %s'
                               % (mode, p), case=pj)
-            for n, (st, arr) in enumerate(results, 1):
+            for nth, (st, arr) in enumerate(results, 1):
                 if st != 'ok' or arr.shape != got.shape or not np.array_equal(arr, got):
                     out.violation('oracle', 'call number %d of the specific-yield function with the same float64 array '
                                   '(%s) gives %s; a fresh array of these levels gives %s; parameters %s'
-                                  % (n, mode, arr, got, p), case=pj)
+                                  % (nth, mode, arr, got, p), case=pj)
                     break
         for z, g, r in zip(zs, got, ref):
             if not abs(g - r) <= 1e-12:
@@ -437,7 +437,7 @@ def check_T_arrays(cases, out):
         if modified:
             out.violation('oracle', 'the caller\'s levels were modified: %s differs from its pristine copy after the '
                           'calls' % who, case=c)
-        for n, (st, arr) in enumerate(results, 1):
+        for nth, (st, arr) in enumerate(results, 1):
             if refused:
                 good = (st, arr) == ('err', 'EValue')
             else:
@@ -446,7 +446,7 @@ def check_T_arrays(cases, out):
                     for v, (_, ov), z in zip(arr, want, levels))
             if not good:
                 out.violation('oracle', '%s: call number %d gives %s %s; the published formula gives %s'
-                              % (who, n, st, arr, 'a refusal (ValueError: a level lies above the ceiling)' if refused
+                              % (who, nth, st, arr, 'a refusal (ValueError: a level lies above the ceiling)' if refused
                                  else [ov for _, ov in want]), case=c)
                 break
 
@@ -469,7 +469,12 @@ def check_T(cases, out, label):
         if texts:
             out.count('T-yaml-types:' + ','.join(H.yaml_type(texts[k]) for k in ('Ks', 'alpha', 'zmax')))
             out.count('T-arg:' + form)
+        pristine = arg.tobytes() if isinstance(arg, np.ndarray) else None
         st, v = impl_T(Ks, alpha, zmax, arg, texts)
+        if pristine is not None and arg.tobytes() != pristine:
+            out.violation('oracle', 'the caller\'s levels were modified: the array %r handed to PEATCLSM transmissivity '
+                          '(Ksmacz0=%r alpha=%r zeta_max_cm=%r) holds %r afterwards'
+                          % ([z, z - 7.0], Ks, alpha, zmax, arg.tolist()), case=jc)
         if st == 'ok' and form in ('array', 'intarray'):
             st2, v2 = impl_T(Ks, alpha, zmax, float(z), texts)
             if st2 != 'ok' or not (float(v2) == float(v[0]) or abs(float(v2) - float(v[0])) <= 1e-14 * abs(float(v2))):   # numpy's array and scalar pow differ by a few ulp
@@ -704,7 +709,13 @@ def check_T_history(cases, out):
         try:
             with warnings.catch_warnings():
                 warnings.simplefilter('ignore')
-                v = T(np.array([z, z - 7.0]))[0] if form == 'array' else T(z)
+                if form == 'array':
+                    arr = np.array([z, z - 7.0])
+                    v = T(arr)[0]
+                    if arr.tolist() != [z, z - 7.0]:
+                        return ('levels-modified', arr.tolist())
+                else:
+                    v = T(z)
                 return ('ok', float(v))
         except Exception as e:  # pylint: disable=broad-except
             return ('err', C.err_of(e))
